@@ -40,8 +40,9 @@ D14_SHAPES = {
 }
 
 LANGS = [0, 1104, 1301, 1401, 1501, 1601, 1701, 1801, 1901, 2001, 2101, 2201, 2202, 2203, 2301, 2302, 2401, 2402, 2501]
-E_SETTING_IDX = [1, 10, 11, 12, 13, 14, 21, 22, 23, 24, 25, 26, 28]   # setting fields in the 29-field encoder dump
-E_RUN_IDX = [i for i in range(29) if i not in E_SETTING_IDX]
+E_NFIELDS = 34
+E_SETTING_IDX = [1, 10, 11, 12, 13, 14, 21, 22, 23, 24, 25, 26, 33]   # setting fields in the 34-field encoder dump
+E_RUN_IDX = [i for i in range(E_NFIELDS) if i not in E_SETTING_IDX]
 
 
 def hx(b):
@@ -466,7 +467,7 @@ def tie(ctx, harness, driver, docs, g, fixed_world):
                 want = [pvals[i] for i in E_SETTING_IDX]
                 want[E_SETTING_IDX.index(12)] = ot
             else:
-                want = [mvals[i] for i in E_SETTING_IDX] if len(mvals) == 29 else None
+                want = [mvals[i] for i in E_SETTING_IDX] if len(mvals) == E_NFIELDS else None
             got = [cvals[i] for i in E_SETTING_IDX]
             if want != got:
                 bad.append({"function": "encoder_encode_tree (values stored into setting fields)", "history": lines[li],
